@@ -10,7 +10,8 @@ import PPProofs.Lemmas.ParseStrict
     * the private budgets (`slen + 2`) of the inner loops `ignoreOne`, `skipIgnorables`, `manyLoop`, `ignLoop`;
     * the non-advance tests `l ≤ loc` of `ignoreOne` and `manyLoop` (where the real code loops for ever);
     * propagation of a nested `hang` (`stopCheck` / `canParseNext` / `orPass1` returning `none`, …);
-    * two unreachable match arms (`orAt` on an empty sorted candidate list).
+    * an unreachable match arm (`orAt` on an empty sorted candidate list) and, in Entry.lean, the budget of `scanLoop`
+      and its unreachable `abort (fail parse)` arm.
   One `…_nohang` lemma per helper, generic in the recursive call `p`, under
     `NH p e`        the nested calls the helper makes do not hang,
     `Adv p`         successful calls end at or after their start (Lemmas/ParseAdv.lean),
